@@ -15,8 +15,9 @@ txt = ('## 9. Coverage summary (generated from `lean/obligations/*.json` by `too
        'The last column is what is *not* carried by a theorem (left to the exact correspondence and, after a break, to the oracle).\n\n'
        '| id | # | theorems | not proved (correspondence / oracle only) |\n|---|---|---|---|\n' + '\n'.join(rows) + '\n\n'
        '`not_applicable`: none. Two clauses are outside what a theorem of this family can carry and are labelled as such in MANIFEST/obligations: '
-       'C20\'s Schmidt-rank equality for generic parameters (generic reals, numerical rank) and C07\'s gauge-transform sentence '
-       '(the transform is a numeric index table that is not modelled; it is checked numerically on every run).\n\n')
+       'C20\'s Schmidt-rank equality for generic parameters (generic reals, numerical rank) and the conjugation identity of C07\'s gauge-transform sentence '
+       '(the transform is modelled and compared exactly on monomial unitaries; the identity itself is checked numerically on every run). '
+       'Clauses that are FALSE on the real code are listed as known findings (F10, F13-F17, section 0.3) and printed as KNOWN-FINDING by the checks.\n\n')
 p = os.path.join(V, 'DESIGN.md')
 s = open(p).read()
 i = s.index('## 9. Coverage summary')
